@@ -196,10 +196,16 @@ package tlv
 //@   loop * havoc
 //@   bounds-safe
 //@
+//@ // the size of a BigSize value, as WriteVarInt emits it and ReadVarInt insists on: 1 / 3 / 5 / 9 bytes with the boundaries at
+//@ // 0xfc|0xfd, 0xffff|0x10000, 0xffffffff|0x100000000 (btcd's VarIntSerializeSize is assumed to compute the same table: A-ext)
+//@ extern func wire.VarIntSerializeSize
+//@   ensures result == ite(val < 253, 1, ite(val <= 65535, 3, ite(val <= 4294967295, 5, 9)))
+//@
 //@ func VarIntSize
 //@   props C10
 //@   loop * havoc
 //@   bounds-safe
+//@   ensures result == ite(val < 253, 1, ite(val <= 65535, 3, ite(val <= 4294967295, 5, 9)))
 //@
 //@ // ---- a BigSize record consists of exactly its value: it is accepted only if the declared record length is the size of the
 //@ // ---- decoded value, and only if the value fits the target (finding F28: the length was ignored, the rest of the declared length
